@@ -184,6 +184,9 @@ type FS struct {
 	NoLog          bool   // keep only counters (long stress runs)
 	CloseErr       error  // returned by Close
 	Recursive      bool   // UnlinkAt / RenameAt remove or replace non-empty directories (a backend may)
+	// IOHook, if set, scripts ReadAt/WriteAt: it may shorten the count
+	// (limit >= 0) or fail the call. It runs before any effect.
+	IOHook func(method string, off int64, want int) (limit int, err error)
 }
 
 // New creates an empty file system with a root directory.
@@ -975,6 +978,24 @@ func (h *H) ReadAt(p []byte, offset int64) (cnt int, err error) {
 		return 0, linux.EISDIR
 	}
 	size := n.size()
+	if h.fs.IOHook != nil {
+		lim, herr := h.fs.IOHook("ReadAt", offset, len(p))
+		if herr != nil {
+			return 0, herr
+		}
+		if lim >= 0 && lim < len(p) {
+			p = p[:lim]
+			if uint64(offset) < size && uint64(lim) <= size-uint64(offset) {
+				// a short read that is not at end of file
+				size = uint64(offset) + uint64(lim)
+				defer func() {
+					if err == io.EOF && cnt > 0 {
+						err = nil
+					}
+				}()
+			}
+		}
+	}
 	if uint64(offset) >= size {
 		return 0, io.EOF
 	}
@@ -1009,6 +1030,15 @@ func (h *H) WriteAt(p []byte, offset int64) (cnt int, err error) {
 	}
 	if n.Mode.IsDir() {
 		return 0, linux.EISDIR
+	}
+	if h.fs.IOHook != nil {
+		lim, herr := h.fs.IOHook("WriteAt", offset, len(p))
+		if herr != nil {
+			return 0, herr
+		}
+		if lim >= 0 && lim < len(p) {
+			p = p[:lim]
+		}
 	}
 	n.Writes++
 	if n.Synth {
